@@ -11,6 +11,7 @@ mod json;
 mod machine;
 mod prng;
 mod props;
+mod refcheck;
 mod runner;
 mod scenario;
 mod snapfmt;
@@ -28,6 +29,11 @@ fn main() {
         std::process::exit(2);
     }
     let id = args[0].clone();
+    if id == "refmodel" {
+        runner::install_panic_hook();
+        let name = args.get(1).cloned().unwrap_or_else(|| "z80full".to_string());
+        std::process::exit(refcheck::run(&name));
+    }
     let mut tier = match std::env::var("VERIF_TIER").ok().as_deref() {
         Some("thorough") => Tier::Thorough,
         _ => Tier::Quick,
